@@ -253,9 +253,11 @@ func (sc scalarCase) eval(pat pattern, recvInit *ScalarSpec) (res snap.Elem, p *
 	return
 }
 
-func (sc scalarCase) class() string {
+// lowerOrder: the receiver is an operand of lower derivative order than
+// another operand.
+func (sc scalarCase) lowerOrder() bool {
 	if !sc.T.IsReal {
-		return "plain"
+		return false
 	}
 	g := sc.Pat.groupOf("r")
 	recv := 0
@@ -275,11 +277,18 @@ func (sc scalarCase) class() string {
 	for _, x := range sc.X {
 		other = maxInt(other, x.J.Order())
 	}
-	c := orderRel(recv, other)
-	if sc.Op.arity >= 2 && sc.A.J.Order() >= 1 && sc.B.J.Order() >= 1 && sc.A.J.N != sc.B.J.N {
-		c += ",N-differ"
+	return recv < other
+}
+
+// class: recv-lower-order when the receiver IS an operand (r=a, r=b) of lower
+// derivative order than another operand — AllocForOne/AllocForTwo then
+// reallocates (clears) the receiver's derivative storage before the operand,
+// the same object, is read; any otherwise.
+func (sc scalarCase) class() string {
+	if g := sc.Pat.groupOf("r"); sc.lowerOrder() && (contains(g, "a") || contains(g, "b")) {
+		return "recv-lower-order"
 	}
-	return c
+	return "any"
 }
 
 // judge evaluates reference and aliased configuration and reports.
@@ -289,25 +298,28 @@ func (sc scalarCase) judge(cs *fw.Case) {
 	key := "scalar:" + sc.T.Name
 	cs.Cover("scalar-op:" + sc.opName())
 	cs.Cover("scalar-alias:" + sc.Pat.name)
-	if sc.T.IsReal {
-		cs.Cover("scalar-real-class:" + sc.class())
+	if sc.lowerOrder() {
+		cs.Cover("scalar-recv-lower-order:" + sc.Pat.name)
 	}
 	var v verdict
 	switch {
-	case pr != nil && pa != nil:
-		cs.Cover("both-rejected:scalar")
+	case pr != nil:
+		// the operation rejects these operands even without aliasing (integer
+		// division by zero, operands with different numbers of variables ...)
+		cs.Cover("reference-rejected:scalar")
 		return
 	case pa != nil && aliasRejection(pa.Msg):
 		cs.Cover("alias-rejected-by-api:scalar")
 		return
+	case pa != nil && strings.Contains(pa.Msg, "integer divide by zero"):
+		// an operand clobbered to zero through the alias: a wrong result, not a rejection
+		v = verdict{kind: "result", detail: fmt.Sprintf("aliased call divides by a clobbered operand (%s at %s), the call with a fresh receiver returns %v", pa.Msg, pa.Frame, ref.F)}
 	case pa != nil:
 		v = verdict{kind: "panic", detail: fmt.Sprintf("aliased call panics (%s at %s), the call with a fresh receiver returns %v", pa.Msg, pa.Frame, ref.F)}
-	case pr != nil:
-		v = verdict{kind: "panic-fresh-only", detail: fmt.Sprintf("call with a fresh receiver panics (%s at %s), the aliased call returns %v", pr.Msg, pr.Frame, got.F)}
 	default:
 		cs.Cover("judged:" + key)
 		if d := snap.Diff(got, ref, sc.T.IsInt); d != "" {
-			v = verdict{kind: kindOfDiff(d), detail: fmt.Sprintf("aliased vs fresh receiver: %s", d)}
+			v = verdict{kind: "result", detail: fmt.Sprintf("aliased vs fresh receiver: %s", d)}
 		}
 	}
 	if pr == nil {
@@ -347,7 +359,7 @@ func (sc scalarCase) judge(cs *fw.Case) {
 			cause = "prior-state"
 		}
 	}
-	sig := fmt.Sprintf("C08|scalar|%s|%s|alias=%s|%s,cause=%s|%s", sc.opName(), sc.T.Name, sc.Pat.name, sc.class(), cause, v.kind)
+	sig := fmt.Sprintf("C08|scalar|%s|%s|alias=%s|%s,cause=%s|%s", sc.Op.name, tmpl(sc.T), sc.Pat.name, sc.class(), cause, v.kind)
 	w := sc.witness()
 	w["fresh_receiver_result"] = fmt.Sprintf("%+v", ref)
 	w["aliased_result"] = fmt.Sprintf("%+v", got)
@@ -398,8 +410,8 @@ func genScalarCase(r *prng.Rand, T gen.ElemType, op sop, concrete bool, pat patt
 	}
 	n := r.Range(1, 3)
 	nb := n
-	if r.Chance(0.08) {
-		nb = n%3 + 1
+	if r.Chance(0.02) {
+		nb = n%3 + 1 // rejected by the library ("different number of partial derivatives") when both carry derivatives
 	}
 	rg := pat.groupOf("r")
 	// operand types: an operand that is the receiver has the receiver's type;
@@ -448,8 +460,24 @@ func genScalarCase(r *prng.Rand, T gen.ElemType, op sop, concrete bool, pat patt
 			}
 		}
 	}
+	// a temporary that is also the receiver / an operand has that object's type;
+	// the reference then uses a fresh temporary of the same type
+	for i := 0; i < op.temps; i++ {
+		g := pat.groupOf(fmt.Sprintf("t%d", i))
+		switch {
+		case contains(g, "r"):
+			sc.TT = T
+		case contains(g, "a"):
+			sc.TT = ta
+		case contains(g, "b"):
+			sc.TT = tb
+		}
+	}
 	sc.A = ScalarSpec{T: ta, Const: ca, J: jetFor(ta, r, va, n, oa)}
 	sc.B = ScalarSpec{T: tb, Const: cb, J: jetFor(tb, r, vb, nb, ob)}
+	if ga := pat.groupOf("a"); ga != nil && contains(ga, "b") {
+		sc.B = sc.A // one object in both operand positions: the reference uses two equal operands
+	}
 	if op.vec {
 		tx := otherType(r, T)
 		k := r.Range(1, 4)
